@@ -82,11 +82,14 @@ _mk("consts.derivations", ["bls12_381.derivation", "bn128.derivation", "twist.em
 _mk("consts.pairing-loops", ["pairing.loop-constants"], ("C05", "C12", "C07"))
 _mk("consts.secp", ["secp.constants", "secp.generator", "secp.no-y0-point", "secp.p-3-mod-4", "secp.hasse"],
     ("C18", "C19", "C06"), lean=L_GROUP[:7])
-_mk("consts.bls-cofactors", ["bls.cofactors", "bls.hasse-G1", "bls.q-constant", "bls.curve_order-in-g2_primitives",
-                             "optimized_bls12_381.generators-order", "optimized_bls12_381.constants"], ("C17",),
+_mk("consts.bls-cofactors", ["bls.cofactors", "bls.hasse-G1", "bls.order-twist", "bls.struct-G1", "bls.q-constant",
+                             "bls.curve_order-in-g2_primitives", "h2c.cofactor-kills-twist-cofactor",
+                             "optimized_bls12_381.generators-order", "optimized_bls12_381.constants"], ("C17", "C10"),
     lean=[("Roots.lean", "subgroup_check_exact", "r.(kG + T) = O iff T = O when gcd(h, r) = 1 and h.T = O"),
           ("Roots.lean", "coprime_kill", "h.T = O and r.T = O and gcd(h, r) = 1 imply T = O"),
-          ("Cyclic.lean", "zsmul_eq_zero_iff_dvd", "c.G = O iff r | c for G of prime order r")])
+          ("Cyclic.lean", "zsmul_eq_zero_iff_dvd", "c.G = O iff r | c for G of prime order r"),
+          ("Cofactor.lean", "clear_cofactor_multiple", "G2: h_eff = k h2 and (h2 r).P = O give r.(h_eff.P) = O"),
+          ("Cofactor.lean", "clear_cofactor_exponent", "G1: the cofactor part has exponent | h_eff (bls.struct-G1), so r.(h_eff.P) = O")])
 
 
 def run_monitor(ctx, monitor_name, label, function, timeout=1800):
